@@ -555,3 +555,14 @@ def run_property(ctx, what, pid, ops=None, tys=None, configs=("stable", "nightly
             "cases": len(cases), "model_disagreements": bad_model, "spec_decided": n_spec, "spec_violations": bad_spec}
         total_bad += bad_model + bad_spec
     return total_bad
+
+
+def check_bounds(ctx):
+    """C07, correspondence (C): EVERY executable export (all 19 operations, every back end of the build) called by name on
+    slices placed flush against PROT_NONE pages with canaries around the result, for every length residue that changes a
+    loop trip count (thorough: every length 0 .. 2*8L+2L-1, three placements).  A crash, a damaged canary or a modified
+    input is a concrete violation (`C07:memory:<name>`); the outputs are also held to the model and the specification."""
+    thorough = ctx.tier == "thorough"
+    return run_property(ctx, "C:bounds", "C07", ops=None, classes=("random",),
+                        lens_fn=full_lens if thorough else quick_lens,
+                        places=("R", "L", "3") if thorough else ("R", "L"), seed_tag=7)
